@@ -115,6 +115,9 @@ type Exec struct {
 	initGlobals bool
 	modelWrite int
 	hideFrom, hideTo token.Pos // spec name lookup skips Go variables declared in this source range (loop bodies, for invariants)
+	noClosureExpand bool
+	loopNodes []ast.Stmt // enclosing loops of the statement being executed (outermost first)
+	curPos    token.Pos  // position of the statement / call being executed
 	anchorOrd map[*ast.CallExpr]int
 	anchorCnt map[string]int
 	anchorsHit map[string]bool // call anchors (before@/after@) that matched at least one call site
